@@ -319,6 +319,12 @@ impl InnerFilter {
 
         let difference = measurement_vec - prediction;
         let difference_covariance = uncertainty + measurement_noise;
+        // Noise-free measurements against a fully collapsed estimate (e.g. identical
+        // samples with identical timestamps) leave no innovation covariance to invert;
+        // such a measurement carries no information, and 1/0 would poison the state.
+        if !(difference_covariance.entry(0, 0) > 0.0) {
+            return;
+        }
         let update_strength =
             self.uncertainty * measurement_transform.transpose() * difference_covariance.inverse();
         self.state = self.state + update_strength * difference;
